@@ -52,6 +52,9 @@ def library():
         add("p-" + tg, (lambda tg: lambda k: ("p", [T(k), ("tag", tg, [T(k)])]))(tg))
     add("p-link", lambda k: ("p", [T(k), ("link", k(), None), T(k)]))
     add("p-link-caption", lambda k: ("p", [("link", k(), [T(k)])]))
+    # HTML-spelled styles nested in each other, with an unlabeled link (several child-less tokens) in front of the inner one
+    add("p-html-nested-after-link", lambda k: ("p", [("tag", "u", [T(k), ("link", k(), None), ("tag", "small", [T(k)]), T(k)]), T(k)]))
+    add("p-html-nested-after-link-2", lambda k: ("p", [("tag", "big", [("link", k(), None), T(k), ("tag", "sup", [T(k), ("link", k(), None)]), T(k)]), T(k)]))
     # content that consists of links WITHOUT a label only (their target is what is displayed)
     add("p-plainlinks-only", lambda k: ("p", [("link", k(), None), ("link", k(), None)]))
     add("p-ref-plainlink-only", lambda k: ("p", [T(k), ("ref", [("link", k(), None)])]))
